@@ -7,44 +7,84 @@ open Aw Aw.Store
 
 /-! ## client mutations keep `Sep` -/
 
+theorem evAt_some {s : State} {r : Ref} {o : EvObj} (h : evAt s r = some o) : s.heap r = some (.ev o) := by
+  unfold evAt at h
+  split at h
+  · injection h with h; subst h; assumption
+  · cases h
+
+theorem metaAt_some {s : State} {r : Ref} {o : MetaObj} (h : metaAt s r = some o) :
+    s.heap r = some (.mdict o) := by
+  unfold metaAt at h
+  split at h
+  · injection h with h; subst h; assumption
+  · cases h
+
 theorem mutate_sepR {R : Ref → Prop} {s : State} (h : SepR R s) (m : Mut) (hm : m.held s = true) :
     SepR R (mutate s m) := by
+  -- rewriting scalar fields keeps the data dict, which the client holds already
+  have keepEv : ∀ {r : Ref} {o : EvObj}, s.client r = true → evAt s r = some o →
+      ∀ o' : EvObj, o'.dataRef = o.dataRef → SepR R (write s r (.ev o')) := by
+    intro r o hr ho o' he
+    refine h.writeHeld hr _ ?_
+    intro d hd
+    simp only [cellRef, Option.some.injEq] at hd
+    rw [← hd, he]
+    exact h.closed r hr _ (dataRefOf_evAt ho)
   cases m with
-  | newEvent id ts dur text => exact (h.allocHeld _).allocHeld _
-  | newDict text => exact h.allocHeld _
+  | newEvent id ts dur text =>
+    refine (h.allocHeld (.dict text) (fun d hd => by cases hd)).allocHeld _ ?_
+    intro d hd
+    simp only [cellRef, Option.some.injEq] at hd
+    subst hd
+    exact client_allocHeld_self s _
+  | newDict text => exact h.allocHeld _ (fun d hd => by cases hd)
   | setId r v =>
     simp only [mutate]
     split
-    · exact h.writeHeld hm _
+    · rename_i o ho
+      exact keepEv hm ho _ rfl
     · exact h
   | setTs r v =>
     simp only [mutate]
     split
-    · exact h.writeHeld hm _
+    · rename_i o ho
+      exact keepEv hm ho _ rfl
     · exact h
   | setDur r v =>
     simp only [mutate]
     split
-    · exact h.writeHeld hm _
+    · rename_i o ho
+      exact keepEv hm ho _ rfl
     · exact h
   | setDataRef r d =>
-    have hr : s.client r = true := by
-      simp only [Mut.held, Bool.and_eq_true] at hm
-      exact hm.1
+    have hr : s.client r = true ∧ s.client d = true := by
+      simpa [Mut.held] using hm
+    have hcl : ∀ c : Cell, cellRef c = some d → ∀ d', cellRef c = some d' → s.client d' = true := by
+      intro c hc d' hd'
+      rw [hc] at hd'
+      injection hd' with hd'
+      rw [← hd']
+      exact hr.2
     simp only [mutate]
     split
-    · exact h.writeHeld hr _
-    · exact h.writeHeld hr _
+    · exact h.writeHeld hr.1 _ (hcl _ rfl)
+    · exact h.writeHeld hr.1 _ (hcl _ rfl)
     · exact h
   | setDict r text =>
     simp only [mutate]
     split
-    · exact h.writeHeld hm _
+    · exact h.writeHeld hm _ (fun d hd => by cases hd)
     · exact h
   | setMeta r name type client hostname created =>
     simp only [mutate]
     split
-    · exact h.writeHeld hm _
+    · rename_i o ho
+      refine h.writeHeld hm _ ?_
+      intro d hd
+      simp only [cellRef, Option.some.injEq] at hd
+      rw [← hd]
+      exact h.closed r hm _ (dataRefOf_metaAt ho)
     · exact h
 
 theorem mutate_store (s : State) (m : Mut) : (mutate s m).store = s.store := by
